@@ -250,6 +250,10 @@ def gen_case(rng, werror=False):
         for st in steps:
             if st["nl"] and rng.random() < 0.12:
                 st["sig"] = [rng.choice(["INT", "TERM"]), rng.choice(["pid", "group"])]
+    if rng.random() < 0.12:
+        # transient clean-up faults in the tracker: the first k os.unlink attempts on these files fail with
+        # PermissionError (k < the 10 attempts of unlink_file, so the file must still be gone afterwards)
+        case["faults"] = {n: rng.choice([1, 1, 2]) for n in rng.sample(FILES, rng.choice([1, 2]))}
     if rng.random() < 0.2:
         case["pending"] = [[n, rng.choice(["pid", "group"])] for n in rng.sample(["INT", "TERM"], rng.choice([1, 1, 2]))]
     return case
@@ -405,6 +409,8 @@ def strip_case(c):
     out = {"steps": steps, "werror": bool(c.get("werror"))}
     if c.get("pending"):
         out["pending"] = c["pending"]
+    if c.get("faults"):
+        out["faults"] = c["faults"]
     return out
 
 
@@ -833,6 +839,37 @@ def run_manager_stage(ctx, quick):
     return stats, scs[0]
 
 
+# ------------------------------------- regenerated fact: the real call sites of the clean-up
+# what the manager scenarios (clean / cleanall shapes) and the model assume about the callers
+EXPECTED_CALLSITES = {
+    "signature": [["context_id", None], ["force", False], ["allow_non_empty", False]],
+    "sites": {
+        "_memmapping_reducer.py:TemporaryResourcesManager._clean_temporary_resources":
+            {"context_id": "<expr>", "force": "<expr>", "allow_non_empty": "<expr>"},   # the per-context recursion
+        "_parallel_backends.py:LokyBackend.terminate": {"context_id": "<expr>", "force": False},   # ITS OWN context only
+        "executor.py:MemmappingExecutor.terminate": {"force": "<expr>", "allow_non_empty": True},  # all contexts
+        "pool.py:MemmappingPool.terminate": {},                                                     # all contexts, defaults
+    },
+}
+
+
+def check_callsites(ctx):
+    try:
+        rc, out, err = common.run_impl("c20_callsites.py", args=[common.REPO], env=run_env(ctx), timeout=60)
+        live = json.loads(out)
+    except Exception as e:  # noqa
+        ctx.violation("the call sites of _clean_temporary_resources could not be read from the source (%s)" % e,
+                      {"kind": "correspondence", "correspondence": "call-site shapes"}, found_input=False)
+        return None
+    diffs = []
+    if live.get("signature") != EXPECTED_CALLSITES["signature"]:
+        diffs.append("signature %s (expected %s)" % (live.get("signature"), EXPECTED_CALLSITES["signature"]))
+    for k in sorted(set(live["sites"]) | set(EXPECTED_CALLSITES["sites"])):
+        if live["sites"].get(k) != EXPECTED_CALLSITES["sites"].get(k):
+            diffs.append("%s passes %s (expected %s)" % (k, live["sites"].get(k), EXPECTED_CALLSITES["sites"].get(k)))
+    return diffs
+
+
 # ------------------------------------------- signals on the real spawn path
 def judge_signal(sc, r):
     """(violation | None, inconclusive | None)"""
@@ -898,12 +935,21 @@ def judge_np(r):
     if r.get("flags"):
         return None, "flags %s %s" % (r["flags"], r.get("stderr_tail", "")[-200:]), None
     seen = r.get("seen") or []
+    if r.get("mode") == "two-calls" and (r.get("workload") or {}).get("files_b"):
+        seen = [{"filename": "-", "exists": True}]
     if r.get("mode") == "terminate-pending" and not seen and (r.get("workload") or {}).get("before"):
         seen = [{"filename": "-", "exists": True}]   # the pending task never ran its body: judged by its result below
     if not seen or not all(x.get("filename") for x in seen):
         return None, "memmapping did not engage", None
     if not all(x["exists"] for x in seen):
         return "a worker received a memmap whose backing file was already deleted: %s" % [x for x in seen if not x["exists"]][:1], None, None
+    if r["mode"] == "two-calls":
+        w = r.get("workload") or {}
+        if w.get("setup"):
+            return None, "set-up: %s" % w["setup"], None
+        if w.get("problems"):
+            return "two Parallel calls sharing the loky executor: " + "; ".join(w["problems"]), None, None
+        return None, None, None
     if r["mode"] == "terminate-pending":
         w = r.get("workload") or {}
         if not w.get("before"):
@@ -1109,8 +1155,8 @@ def run(ctx):
 
     lap('signals')
     # Parallel + numpy life-cycle (sampled; python3-vt)
-    modes = (["normal", "kill", "kill-rel", "terminate-pending", "kill-werror"] if quick
-             else ["normal"] * 3 + ["kill"] * 4 + ["kill-rel"] * 3 + ["terminate-pending"] * 3 + ["kill-werror"])
+    modes = (["normal", "kill", "kill-rel", "terminate-pending", "two-calls", "kill-werror"] if quick
+             else ["normal"] * 3 + ["kill"] * 4 + ["kill-rel"] * 3 + ["terminate-pending"] * 3 + ["two-calls"] * 3 + ["kill-werror"])
     if hang:
         ctx.note("sampled stages skipped after time-outs in the %s" % hang[0])
         modes = []
@@ -1138,6 +1184,16 @@ def run(ctx):
             if mode == "kill-werror":
                 ctx.note("end-to-end form of F18 (kill-werror) did not leave the folder behind this time")
 
+    cs_diffs = check_callsites(ctx)
+    if cs_diffs:
+        # the binding of a real call site differs from what scenarios and model assume; the two-calls / terminate-pending
+        # samples above are the search for a failing input
+        if not any(v["found_input"] for v in ctx.violations):
+            ctx.violation("call site of _clean_temporary_resources changed: " + "; ".join(cs_diffs),
+                          {"kind": "correspondence", "correspondence": "regenerated call-site shapes vs EXPECTED_CALLSITES",
+                           "diffs": cs_diffs}, found_input=False)
+        else:
+            ctx.note("call site of _clean_temporary_resources changed: " + "; ".join(cs_diffs))
     if len(np_crashed) >= 2:
         ctx.violation("Parallel with memmapped arguments could not be run in %d of %d sampled runs: %s"
                       % (len(np_crashed), len(modes), np_crashed[0][1][:300]),
@@ -1181,6 +1237,7 @@ def run(ctx):
         "client_inconclusive": cl_inconclusive,
         "client_side_is_sampled": True,
         "stage_seconds": stage_t,
+        "callsite_shapes_match": cs_diffs == [],
         "manager_stage": mg_stats,
         "signal_stage": sg_stats,
         "loop_cases_with_signals": sum(1 for c in cases if any(st.get("sig") for st in c["steps"])),
